@@ -8,7 +8,7 @@
 //! the two terms must evaluate equally under 6 fixed-seed assignments of the slots; a slot that is free in a kept term but
 //! no longer a slot of its class must not influence the term's value (a class drops a parameter only if its terms do not
 //! depend on it).  Necessary conditions only: a wrong `true` that happens to agree with the model is not seen.
-//! Bound: 12 hand-written + 60 (deep: 4000) histories of 4 law instances over operand terms of depth <= 1 with 3 slot
+//! Bound: 12 hand-written + 60 (deep: 1500) histories of 4 law instances over operand terms of depth <= 1 with 3 slot
 //! names (all subterms, a slot-permuted copy of each side and parents of the sides that re-use one of their slots are
 //! inserted before any union and kept as handles), unions in fixed-seed order.
 //! Second oracle (binders): 10 hand-written + 150 (deep: 3000) e-graphs of terms over lam / letrev (binder after a child) /
@@ -290,7 +290,7 @@ pub fn run(only: &[String]) -> Vec<String> {
         verif_case(desc.clone());
         if let Err(e) = alpha_history(&texts, &desc) { if n < 3 { n += 1; let (c, m) = e.split_once(' ').unwrap(); fails.push(format!("FAIL EGraph::eq {} {}", c, m)); } }
     }
-    let seeds: u64 = if deep { verif_scale(4000) } else { 60 };
+    let seeds: u64 = if deep { verif_scale(1500) } else { 60 };
     for seed in 1..=seeds {
         let mut r = Rng(seed.wrapping_mul(0x9E3779B97F4A7C15).wrapping_add(3));
         let pairs: Vec<(String, String)> = (0..4).map(|_| law(&mut r)).collect();
